@@ -91,7 +91,9 @@ func Load(o Options) (*Program, error) {
 			problems = append(problems, pk.PkgPath+": no type information")
 			return
 		}
-		if pk.TypesInfo != nil && len(pk.Syntax) > 0 {
+		// Only root packages (or every package in whole-program mode) carry type-checked bodies;
+		// dependencies type-checked from source without bodies must not be built from syntax.
+		if pk.TypesInfo != nil && len(pk.Syntax) > 0 && (o.Whole || p.rootSet[pk]) {
 			p.SSAPkg[pk.PkgPath] = p.SSA.CreatePackage(pk.Types, pk.Syntax, pk.TypesInfo, true)
 		} else {
 			p.SSAPkg[pk.PkgPath] = p.SSA.CreatePackage(pk.Types, nil, nil, true)
